@@ -49,11 +49,51 @@ def _switch_arms(h, rel, body, what):
     return arms
 
 
+# the two shapes in which a refused conditional insert becomes ErrSequencesViolation: an early return out of the
+# function, or an assignment to err that leaves through the function's normal exit
+_REFUSAL_RETURNS = r"if\s+!ok\s*\{\s*return\s+(nil,\s*)?ErrSequencesViolation\s*\}"
+_REFUSAL_FALLS_THROUGH = r"err\s*==\s*nil\s*&&\s*!ok\s*\{\s*err\s*=\s*ErrSequencesViolation\s*\}|if\s+!ok\s*\{\s*err\s*=\s*ErrSequencesViolation\s*\}"
+
+
+def _stored_marks(h, rel):
+    """PutPlog sets dbEvent.isStored - the only thing GetEventReapplier looks at.  For which unsuccessful
+    outcomes is it set?  (refused: the conditional insert answered "exists"; failed: the storage call returned
+    an error).  The statement after the switch runs for a refusal only when the refusal does not return early,
+    and for a storage error unless it sits inside `if err == nil {`."""
+    body = h.func_body(rel, r"^func \(e \*appEventsType\) PutPlog\(", "PutPlog")
+    if len(re.findall(r"\.isStored\s*=\s*true", body)) != 1 or len(re.findall(r"\.isStored\s*=", h.src(rel))) != 1:
+        raise h.Missing(f"{rel}: PutPlog: isStored is not set exactly once")
+    m = re.search(r"\bswitch\s*\{", body)
+    i = m.end() - 1
+    depth, j = 0, i
+    while j < len(body):
+        if body[j] == "{":
+            depth += 1
+        elif body[j] == "}":
+            depth -= 1
+            if depth == 0:
+                break
+        j += 1
+    sw, tail = body[i:j + 1], body[j + 1:]
+    if "isStored" in sw or "isStored" not in tail:
+        raise h.Missing(f"{rel}: PutPlog: isStored is not set after the switch")
+    guarded = re.search(r"if\s+err\s*==\s*nil\s*\{[^{}]*\.isStored\s*=\s*true", tail) is not None
+    if not guarded and not re.search(r"^\s*dbEvent\.isStored\s*=\s*true\s*$", tail, re.M):
+        raise h.Missing(f"{rel}: PutPlog: cannot interpret the condition under which isStored is set")
+    early = re.search(_REFUSAL_RETURNS, sw) is not None
+    through = re.search(_REFUSAL_FALLS_THROUGH, sw) is not None
+    if early == through:
+        raise h.Missing(f"{rel}: PutPlog: cannot tell whether a refusal returns early")
+    refused = through and not guarded
+    failed = not guarded
+    return refused, failed
+
+
 def _log_op(h, rel, arm_body, what):
     ins = "storage.InsertIfNotExists(" in arm_body
     put = re.search(r"storage\.Put\(", arm_body) is not None
     if ins and not put:
-        if not re.search(r"if\s+!ok\s*\{\s*return\s+(nil,\s*)?ErrSequencesViolation\s*\}", arm_body):
+        if not (re.search(_REFUSAL_RETURNS, arm_body) or re.search(_REFUSAL_FALLS_THROUGH, arm_body)):
             raise h.Missing(f"{rel}: {what}: InsertIfNotExists arm does not answer a refusal with ErrSequencesViolation")
         return 1
     if put and not ins:
@@ -186,6 +226,20 @@ def collect(h):
     h.find(rel, r"return recs\.apply2\(event, cb, false\)", "Apply2 -> apply2(..., false)")
     body = h.func_body(rel, r"^func \(er \*implIEventReapplier\) PutWLog\(", "implIEventReapplier.PutWLog")
     items.append(("c05_reapply_wlog_op", "N", str(_log_op(h, rel, body, "implIEventReapplier.PutWLog")), f"{rel} implIEventReapplier.PutWLog"))
+    # apply2 / applyRecs: is the stored record of an update read before the batch is written always, or only for
+    # an event that was read back from the log (empty origin)?
+    et = "pkg/istructsmem/event-types.go"
+    ar = h.func_body(et, r"^func \(cud \*cudType\) applyRecs\(", "applyRecs")
+    if not re.search(r"load\(&rec\.originRec\)", ar):
+        raise h.Missing(f"{et}: applyRecs: the origin of an update is not loaded")
+    only_empty = re.search(r"if\s+rec\.originRec\.empty\(\)\s*\{[^{}]*(\{[^{}]*\}[^{}]*)*load\(&rec\.originRec\)", ar) is not None
+    items.append(("c05_updates_always_load", "bool", "false" if only_empty else "true", f"{et} applyRecs: the stored record of every update is read first"))
+    # which unsuccessful PutPlog outcomes leave the event marked as stored (= acceptable to GetEventReapplier)
+    refused, failed = _stored_marks(h, rel)
+    h.find(rel, r"func \(app \*appStructsType\) GetEventReapplier\(plogEvent istructs\.IPLogEvent\) istructs\.IEventReapplier \{\s*if !plogEvent\.\(\*eventType\)\.isStored \{\s*panic\(",
+           "GetEventReapplier panics unless isStored")
+    items.append(("c05_refused_plog_marks_stored", "bool", "true" if refused else "false", f"{rel} PutPlog: isStored after a refused conditional insert"))
+    items.append(("c05_failed_plog_marks_stored", "bool", "true" if failed else "false", f"{rel} PutPlog: isStored after a failed storage call"))
     # the insert-vs-put flag of every batch row: where it comes from
     items.append(("c05_store_put_kinds", "list N", "[" + "; ".join(f"{k}%N" for k in _store_put_kinds(h, rel)) + "]",
                   f"{rel} apply2: store closure (record kinds whose creates are handed on as not-new)"))
